@@ -595,6 +595,10 @@ class Lexer:
                 )
 
     def accept_range(self) -> None:
+        # A range is `(`, start, `..`, stop and `)`.
+        if len(self.expression) < 5:  # noqa: PLR2004
+            self.error("malformed range expression")
+
         rparen = self.expression.pop()
         assert is_token_type(rparen, TokenType.RPAREN)
 
